@@ -123,6 +123,9 @@ def counter_handback_source(ctx, rid):
 
 def rules(ctx):
     P, R = ctx.prog, ctx.res
+    ctx.rule('R03.8', "no function writes module-level state (memo / registry): results independent of earlier calls", floor=1)
+    from .C14 import no_module_state as _nms
+    _nms(ctx, 'R03.8')
     from .C14 import derived_fields
     ctx.rule('R03.6', "a field of model objects outside the frozen bookkeeping fields that is written together with the terms / a bookkeeping field is written by every other mutator of that state (no stale memo)", floor=1)
     derived_fields(ctx, 'R03.6')
@@ -272,6 +275,8 @@ def rules(ctx):
         ['_pcbo._special_constraints_eq_zero', '_pcbo._special_constraints_le_zero']))
 
     # ---------------------------------------------------------------- R03.5
+    # premise: what PCSO.is_solution_valid delegates to reads the record relation by relation, every entry, no memo
+    C02.validity_table(ctx, 'R03.5', P.func('PCBO.is_solution_valid'))
     table = ['is_solution_valid', 'remove_ancilla_from_solution', 'subs', '__round__', 'update',
              '__init__', '_append_constraint']
     pcso = P.cls('PCSO')
